@@ -28,12 +28,12 @@ register('C07', level='proof', sidecars=BASE + ['components', 'periodic', 'trans
          explanation='one contract per translator and constructor, dispatch table contract')
 register('C08', level='proof', sidecars=['periodic'], trusted=NUM,
          explanation='closed forms, a/b/c forms, lookup, time functions on open pieces')
-register('C16', level='other', sidecars=BASE + ['net_ops_bounded'], trusted=NET,
+register('C16', level='other', sidecars=BASE + ['net_ops_bounded', 'seq_network'], trusted=NET,
          explanation='bounded: short-circuit contraction (single, chains in both listing orders, star, parallel + reference, exempted), open removal, element removal, '
                      'reference switch, passive network - structure clauses plus equality of the solver result before/after for all element values')
 register('C17', level='proof', sidecars=BASE + ['components', 'loaders', 'dump_load', 'seq_loaders'], trusted=NUM + ['json'],
          explanation='loader table, to_complex, load_network, dump_load round trips under the assumed json/yaml contract')
-register('C19', level='proof', sidecars=BASE + ['components', 'periodic', 'loaders', 'dump_load', 'net_ops_bounded', 'statespace', 'seq_network', 'seq_circuit', 'seq_loaders'], trusted=NUM,
+register('C19', level='proof', sidecars=BASE + ['components', 'periodic', 'loaders', 'dump_load', 'net_ops_bounded', 'statespace', 'seq_network', 'seq_circuit', 'seq_loaders', 'declarative'], trusted=NUM,
          explanation='raises-iff contracts on constructors and loaders')
 register('C09', level='other', sidecars=BASE + ['components', 'periodic', 'transformers', 'multifreq'], trusted=NUM + ['numpy-array'], extras=[standin.make('frequencies', 'frequencies.py')],
          explanation='contracts on frequency_components (sinusoidal sources; periodic source with up to 8 harmonics), TimeDomainSolution (sum of |X_k| cos(w_k t + arg X_k), power = v(t) i(t)) '
